@@ -147,7 +147,9 @@ func genC19Proxy(repo string) (string, string, error) {
 		ret := false
 		ast.Inspect(fd.Body, func(x ast.Node) bool {
 			if rs, ok := x.(*ast.ReturnStmt); ok && len(rs.Results) > 0 {
-				if c.str(rs.Results[len(rs.Results)-1]) == "badGateway(stat)" {
+				// the last result is badGateway(<the forwarder's status>), whether the status was
+				// first bound to a local or is passed as the call expression itself
+				if ce, ok := rs.Results[len(rs.Results)-1].(*ast.CallExpr); ok && c.str(ce.Fun) == "badGateway" && len(ce.Args) == 1 {
 					ret = true
 				}
 			}
@@ -205,6 +207,11 @@ func genC19Proxy(repo string) (string, string, error) {
 	if fd := funcs["badGateway"]; fd != nil {
 		calls, _ := c.calls(fd.Body)
 		copies, mutates, code := false, false, false
+		// the parameter holding the forwarder's (possibly shared) status, whatever it is called
+		param := "stat"
+		if fd.Type.Params != nil && len(fd.Type.Params.List) == 1 && len(fd.Type.Params.List[0].Names) == 1 {
+			param = fd.Type.Params.List[0].Names[0].Name
+		}
 		for _, ce := range calls {
 			sel, ok := ce.Fun.(*ast.SelectorExpr)
 			if !ok {
@@ -213,11 +220,11 @@ func genC19Proxy(repo string) (string, string, error) {
 			recv := c.str(sel.X)
 			switch sel.Sel.Name {
 			case "Copy":
-				if recv == "stat" {
+				if recv == param {
 					copies = true
 				}
 			case "SetCode", "SetMsg", "SetCause", "Clear", "DecodeQuery", "UnmarshalJSON":
-				if recv == "stat" {
+				if recv == param {
 					mutates = true
 				}
 				if sel.Sel.Name == "SetCode" && len(ce.Args) == 1 && c.str(ce.Args[0]) == "erpc.CodeBadGateway" {
@@ -226,20 +233,36 @@ func genC19Proxy(repo string) (string, string, error) {
 			}
 		}
 		facts["copy_status"] = copies && !mutates && code
+		// the class test, in either of its two equivalent shapes:
+		//   if <in class> { return <gateway status> } ; return param      (Code() < hi, Code() > lo)
+		//   if <not in class> { return param } ; ... return <gateway>     (Code() >= hi, Code() <= lo)
 		ast.Inspect(fd.Body, func(x ast.Node) bool {
-			if be, ok := x.(*ast.BinaryExpr); ok && c.str(be.X) == "stat.Code()" {
-				if lit, ok := be.Y.(*ast.BasicLit); ok && lit.Kind == token.INT {
-					var v int64
-					fmt.Sscan(lit.Value, &v)
-					switch be.Op {
-					case token.LSS:
-						hi = v
-					case token.GTR:
-						lo = v
-					}
+			is, ok := x.(*ast.IfStmt)
+			if !ok || !strings.Contains(c.str(is.Cond), param+".Code()") {
+				return true
+			}
+			negated := false // the guarded block hands the parameter back untouched
+			for _, st := range is.Body.List {
+				if rs, ok := st.(*ast.ReturnStmt); ok && len(rs.Results) == 1 && c.str(rs.Results[0]) == param {
+					negated = true
 				}
 			}
-			return true
+			ast.Inspect(is.Cond, func(y ast.Node) bool {
+				if be, ok := y.(*ast.BinaryExpr); ok && c.str(be.X) == param+".Code()" {
+					if lit, ok := be.Y.(*ast.BasicLit); ok && lit.Kind == token.INT {
+						var v int64
+						fmt.Sscan(lit.Value, &v)
+						switch {
+						case !negated && be.Op == token.LSS, negated && be.Op == token.GEQ:
+							hi = v
+						case !negated && be.Op == token.GTR, negated && be.Op == token.LEQ:
+							lo = v
+						}
+					}
+				}
+				return true
+			})
+			return false
 		})
 	}
 	return c19Render(facts, lo, hi, ""), "", nil
